@@ -398,6 +398,10 @@ type vmCheckOpts struct {
 	Render  func(c *spec.Cmd) string
 	Cands   []int
 	KeyFn   func(msg string) string
+	// Orig, when set, is the generated (unresolved) program: a failing case is
+	// shrunk on it and the reduced program is attached to the witness.
+	Orig     *spec.Program
+	Optimize bool
 }
 
 func vmCheck(k *h.Case, rp *spec.Program, out string, o vmCheckOpts, tag string) (ok bool) {
@@ -453,7 +457,15 @@ func vmCheck(k *h.Case, rp *spec.Program, out string, o vmCheckOpts, tag string)
 				if o.KeyFn != nil {
 					key = o.KeyFn(msg)
 				}
-				k.Violation(key, msg, map[string]interface{}{"output": out, "entry": s.Entry})
+				det := map[string]interface{}{"output": out, "entry": s.Entry}
+				if o.Orig != nil {
+					if msrc, mout := minimalWitness(k, o.Orig, o.Optimize, o); msrc != "" {
+						det["minimal_source"] = msrc
+						det["minimal_output"] = mout
+						msg += "\nreduced witness:\n" + msrc
+					}
+				}
+				k.Violation(key, msg, det)
 				ok = false
 				break
 			}
